@@ -3,8 +3,9 @@ from hypothesis import strategies as st
 
 from vf.harness import buffer as H
 from vf.props import buffer_common as B
-from vf.runner import Result
+from vf.runner import Result, V
 from vf.sim.kernel import HarnessError
+from vf.sim.world import thread_exc_violations
 
 ID = 'C03'
 LEVEL = 'exploration'
@@ -34,9 +35,10 @@ def strategy(tier):
 
 def run_case(case):
     hist = H.run(case)
-    if hist['thread_excs']:
-        raise HarnessError('thread exception in buffer harness: %r' % hist['thread_excs'])
-    viol = B.judge_delivery(case, hist)
+    died, harness = thread_exc_violations(hist['thread_excs'], V)
+    if harness:
+        raise HarnessError('thread exception in buffer harness: %r' % harness)
+    viol = B.judge_delivery(case, hist) + died
     T = case['T']
     cl = ['sched=' + case['sched']['mode']]
     failed = any(not c['ok'] for c in hist['calls'])
